@@ -1,5 +1,4 @@
-import SciVerif.Drive.C01
+import SciVerif.Drive.C02
 open Lean SciVerif.Drive
 
-/-- C02 shares the generic solver model and its protocol handler with C01 (kind "history"). -/
-def main : IO Unit := serve SciVerif.C01.Drive.handle
+def main : IO Unit := serve SciVerif.C02.Drive.handle
